@@ -68,7 +68,12 @@ func init() {
 	fmtInt := func(name string) {
 		reg(name, func(e *Engine, fr *frame, args []V) V {
 			if args[0].K == KSym {
-				return opaqueStr(5)
+				n, ok := e.tryConcretize(args[0].term(), 64)
+				if !ok {
+					return opaqueStr(5)
+				}
+				_, signed, _ := basicInfo(fr.fn.Signature.Params().At(0).Type())
+				args = append([]V{vUint(norm(n, 64, signed))}, args[1:]...)
 			}
 			return e.callSSANoIntrinsic(fr, name, args)
 		})
